@@ -52,9 +52,9 @@ func (w *c09World) check(id string) {
 			needed[x] = true
 		}
 	}
-	nm := w.m.Nodes.(*NodesMap).m
 	stored := make([]bool, len(tv.nodes))
-	for k, leaf := range nm {
+	for _, sn := range storedNodes(w.m) {
+		k, leaf := sn.pos, sn.leaf
 		x := tv.nodeAt(k)
 		if x < 0 {
 			// must be the slot of an empty root
@@ -80,15 +80,14 @@ func (w *c09World) check(id string) {
 	// empty roots are stored too
 	for i := range tv.rootPos {
 		if tv.roots[i] == (Hash{}) {
-			_, ok := nm[tv.rootPos[i]]
+			_, ok := w.m.Nodes.Get(tv.rootPos[i])
 			verifAssert(ok, id+".b-empty-root-stored")
 		}
 	}
 	// (c) cached leaves
-	cm := w.m.CachedLeaves.(*cachedLeavesMap).m
-	verifAssert(len(cm) == len(w.held), id+".c-cached-count")
+	verifAssert(w.m.CachedLeaves.Length() == len(w.held), id+".c-cached-count")
 	for _, s := range w.held {
-		pos, ok := cm[w.rm.leaves[s].hash]
+		pos, ok := w.m.CachedLeaves.Get(w.rm.leaves[s].hash)
 		verifAssert(ok, id+".c-remembered-leaf-cached")
 		if ok {
 			verifAssert(pos == tv.nodes[tv.leafIdx[s]].pos, id+".c-cached-position")
